@@ -186,16 +186,7 @@ def run_plain(case, root, viol, cnt):
             ie = set(exp.experimentGraph.graph.edges())
             cnt['probe.package_vs_instance_edges'] = cnt.get('probe.package_vs_instance_edges', 0) + 1
             if pe != ie:
-                # shape of the listed finding: every missing edge starts at a replica of a component that is named like a
-                # folder only instances have, and nothing else differs
-                docc = {c['name']: c for c in (pkg.get('doc') or {}).get('components', [])} if isinstance(pkg.get('doc'), dict) else {}
-                import re as _re
-                def _replica_of_runtime_folder(n):
-                    base = _re.sub(r'\d+$', '', n.split('.', 1)[1])
-                    return base in ('output', 'stages', 'input') and bool((docc.get(base, {}).get('workflowAttributes') or {}).get('replicate'))
-                tag = ('[replicated-component-named-like-a-runtime-folder]'
-                       if (pe - ie) and not (ie - pe) and all(_replica_of_runtime_folder(a) for (a, b) in pe - ie) else '')
-                viol.append({'property': 'C07', 'sig': 'store:edges-of-the-instance-differ-from-the-package' + tag,
+                viol.append({'property': 'C07', 'sig': 'store:edges-of-the-instance-differ-from-the-package',
                              'detail': {'only_in_package': sorted(pe - ie)[:6], 'only_in_instance': sorted(ie - pe)[:6]}})
                 return
         except (E.ExperimentInvalidConfigurationError, E.FlowIRConfigurationErrors):
